@@ -34,6 +34,8 @@ type C19Case struct {
 	Get503    bool     `json:"get503,omitempty"`    // legacy SSE: the first connect GET is answered 503; the handshake is then repeated under another context
 	ConnFault string   `json:"connfault,omitempty"` // with a configured request handler: the handler fails once with a connection error (EOF) at this request kind
 	Known     bool     `json:"known,omitempty"`     // the static headers use well-known names (User-Agent, Authorization, X-Api-Key) instead of X-Static-n
+	Multi     bool     `json:"multi,omitempty"`     // every static header has two values
+	Lower     bool     `json:"lower,omitempty"`     // the static header keys are written in lower case into the http.Header literal
 	EditKind  string   `json:"editkind,omitempty"`  // the before-request function adds a query parameter to the URL of requests of this kind (documented: it may modify the URL); all others must still go to the configured URL
 }
 
@@ -54,6 +56,8 @@ func genC19(t *rapid.T) C19Case {
 	}
 	c.Query = rapid.SampledFrom([]string{"", "", "?api_key=k1", "?a=1&b=%2Fx"}).Draw(t, "query")
 	c.Known = c.Headers > 0 && rapid.IntRange(0, 2).Draw(t, "known") == 0
+	c.Multi = c.Headers > 0 && rapid.IntRange(0, 2).Draw(t, "multi") == 0
+	c.Lower = c.Headers > 0 && rapid.IntRange(0, 2).Draw(t, "lower") == 0
 	if c.Before && rapid.IntRange(0, 2).Draw(t, "edit") == 0 {
 		c.EditKind = rapid.SampledFrom([]string{"GET", "POST:initialize", "POST:tools/call", "POST:notifications/initialized", "POST:tools/list", "DELETE"}).Draw(t, "editkind")
 	}
@@ -209,7 +213,16 @@ func execC19(c C19Case) *Failure {
 			k = c19KnownHeaders[i]
 		}
 		wantHeaders[k] = v
-		opts = append(opts, mcp.WithHTTPHeaders(http.Header{k: {v}}))
+		vals := []string{v}
+		if c.Multi && k != "User-Agent" {
+			vals = append(vals, v+"-second")
+			wantHeaders[k] = v + "," + v + "-second"
+		}
+		mk := k
+		if c.Lower {
+			mk = strings.ToLower(k) // http.Header is a map: a literal may spell its keys any way
+		}
+		opts = append(opts, mcp.WithHTTPHeaders(http.Header{mk: vals}))
 	}
 	var bmu sync.Mutex
 	var beforeLog, deadSeen []c19Seen
@@ -580,7 +593,7 @@ func execC19(c C19Case) *Failure {
 			return Failf("C19/wrong-query/"+k, "%s: sent with query %q, the configured URL has %q", w0, sr.Query, strings.TrimPrefix(c.Query, "?"))
 		}
 		for hk, hv := range wantHeaders {
-			if sr.Header.Get(hk) != hv {
+			if strings.Join(sr.Header.Values(hk), ",") != hv {
 				return Failf("C19/static-header-missing/"+k, "%s: request lacks the static header %s", w0, hk)
 			}
 		}
